@@ -116,6 +116,7 @@ class Datapath:
         self.hw = HW.ACCEL[acc]
         self.m = vmem
         self.weight_log = []  # per conv/dw op: dict(op idx, W (oc,kh,kw,ic), bias, scale, shift) for C08
+        self.inexact = False  # set when a unit without a documented bit-level definition (hardware tanh / sigmoid) took part
 
     # ---- operand fetch
     def ifm_upscaled(self, k):
